@@ -62,14 +62,16 @@ theorem make_config_always_answers :
 
 /-! ### the consumer of the text: `main.watchBackend` -/
 
-/-- In the loop of `watchBackend` that builds the table, an iteration can end before `route.SetTable` in two places
-only: in front of everything (the unchanged-text test) and after `route.NewTable` (its error). Nothing between
+/-- In the loop of `watchBackend` that builds the table (unexported helpers of package main followed: the update
+stage may live in a function of its own), from the alias reader to the installation of the table an iteration can
+end in one place only: after `route.NewTable` (its error). What happens in front of `route.ParseAliases` (the
+unchanged-text test) depends on the text alone and is the business of stream `c14.watch`. Nothing between
 `route.ParseAliases` / `registry.Default.Register` and `route.NewTable` leaves the iteration: neither the verdict of
 the alias reader nor the outcome of the registration decides whether the table of the current catalog is installed
 (`Model.C14Watch.step`; hypothesis-free `watch_installs_current`). An exit on `Register`'s error is invisible to
 stream `c14.watch` — its scripted backend never fails — hence an obligation. -/
 theorem watch_loop_exits :
-    watchLoopEvents = ["exit", "call route.ParseAliases", "call registry.Default.Register", "call route.NewTable",
-      "exit", "call route.SetTable"] := by decide
+    watchUpdateStage = ["call route.ParseAliases", "call registry.Default.Register", "call route.NewTable", "exit",
+      "call route.SetTable"] := by decide
 
 end Fabio.Props.C14Facts
